@@ -48,6 +48,29 @@ def _tokens(e: ast.AST) -> Optional[List[str]]:
     return None
 
 
+def _accumulator_kept(prog: Program, col: Collector, refs: Refs):
+    """Gaussian._marginalize_after_split starts its result with the normaliser of the integrated block (a Tensor) and ADDS what remains -
+    a Gaussian over the kept inputs, or an empty one - in each arm of its rank test.  A plain re-assignment of the returned name that does
+    not mention it drops the normaliser."""
+    h = require_func(prog, "funsor.gaussian::Gaussian._marginalize_after_split")
+    rets = [r for r in walk_no_nested(h.node) if isinstance(r, ast.Return) and isinstance(r.value, ast.Name)]
+    if not rets:
+        col.unresolved(f"{h.fq}::result", "the helper does not return a local", h.loc())
+        return
+    acc = rets[0].value.id
+    stores = sorted([st for st in ast.walk(h.node) if (isinstance(st, ast.Assign) and len(st.targets) == 1 and norm(st.targets[0]) == acc) or (isinstance(st, ast.AugAssign) and norm(st.target) == acc)],
+                    key=lambda s_: s_.lineno)
+    for st in stores[1:]:
+        construct = f"{h.fq}::{norm(st)[:50]}"
+        if isinstance(st, ast.AugAssign):
+            col.check(isinstance(st.op, ast.Add), construct, "added to the normaliser term", f"`{acc}` is combined with `{type(st.op).__name__}`: log-densities add", h.loc(st))
+        else:
+            keeps = any(isinstance(y, ast.Name) and y.id == acc for y in ast.walk(st.value))
+            col.check(keeps, construct, f"the new value still contains `{acc}`",
+                      f"`{acc}` is overwritten by `{norm(st.value)[:40]}`: the normaliser of the integrated block computed above is dropped, so a partial marginal / partial sample of a "
+                      "Gaussian whose rank equals the integrated dimension loses its mass", h.loc(st))
+
+
 def _integrate_set_bookkeeping(prog: Program, col: Collector, refs: Refs, cat: Catalogue):
     """The Integrate rules whose measure is a Gaussian (mixture) decide by set algebra over the reduced variables which inputs the result
     keeps and which are summed afterwards.  Interpreted in every world of at most three inputs (real / integer, reduced / kept, of the
@@ -334,6 +357,79 @@ def run(prog: Program, col: Collector, tier: str, refs: Optional[Refs] = None, c
                               "Cholesky factor", f.loc(g_))
             else:
                 col.unresolved(construct, "the dimension compared with the rank is not the row count of one of the two blocks", f.loc(g_))
+    # ---------------------------------------------------------------- R13.13 the helper keeps the normaliser it starts with
+    col.rule("R13.13", "_marginalize_after_split adds the remaining Gaussian to the normaliser of the integrated block in both arms", floor=2)
+    _accumulator_kept(prog, col, refs)
+    # ---------------------------------------------------------------- R13.15 the declared rank follows the information that is left
+    col.rule("R13.15", "a factor from which a block was projected out does not keep its full column count as the declared rank of the remaining Gaussian", floor=1)
+    rk = prog.funcs.get("funsor.gaussian::Gaussian.rank")
+    rank_is_columns = rk is not None and any(isinstance(r, ast.Return) and r.value is not None and norm(r.value).endswith("prec_sqrt.shape[-1]") for r in ast.walk(rk.node))
+    n15 = 0
+    if rank_is_columns:
+        for st in ast.walk(h.node):
+            # P = B - B @ proj : the rows of B with the directions of `proj` removed - same shape as B, rank lower by the rank of proj
+            if not (isinstance(st, ast.Assign) and len(st.targets) == 1 and isinstance(st.targets[0], ast.Name) and isinstance(st.value, ast.BinOp) and isinstance(st.value.op, ast.Sub)
+                    and isinstance(st.value.right, ast.BinOp) and isinstance(st.value.right.op, ast.MatMult) and norm(st.value.right.left) == norm(st.value.left)):
+                continue
+            P = st.targets[0].id
+            if not any(st.value.left is y or norm(st.value.left) == pp for pp in h.positional for y in [st.value.left]):
+                continue
+            # does P reach a Gaussian(...) as its prec_sqrt unchanged (no slicing of the last axis, no compression in between)?
+            restores = [x for x in ast.walk(h.node) if isinstance(x, ast.Assign) and norm(x.targets[0]) == P and x is not st]
+            ctor = [c for c in ast.walk(h.node) if isinstance(c, ast.Call) and (refs.resolve(c.func) or "").endswith("gaussian.Gaussian") and len(c.args) >= 2 and norm(c.args[1]) == P
+                    and getattr(c, "lineno", 0) > st.lineno]
+            for c in ctor:
+                if any(st.lineno < x.lineno < c.lineno for x in restores):
+                    continue
+                n15 += 1
+                col.violation(f"{h.fq}::projected factor keeps its columns", f"`{norm(st)[:60]}`: `{P}` has the shape of `{norm(st.value.left)}` - all its columns - although `{norm(st.value.right.right)}` projects out as many directions as the "
+                              f"integrated block has dimensions; Gaussian.rank is the column count, so the remaining Gaussian declares more information than it carries and the 'too little "
+                              "information' tests (rank < dim) pass where they must not: marginalising a rank-2 Gaussian over x, y, z one variable at a time returns a number (a different one "
+                              "for each order) instead of raising", h.loc(st))
+        if n15 == 0:
+            col.ok(f"{h.fq}::declared rank", "no projected factor is handed on with its full column count", h.loc())
+    else:
+        col.unresolved("funsor.gaussian::Gaussian.rank", "rank is not defined as the column count of prec_sqrt; the clause does not apply as written", "funsor/gaussian.py")
+    # ---------------------------------------------------------------- R13.14 the mass that scales a mean is the measure's own normaliser
+    col.rule("R13.14", "an Integrate rule that multiplies by the mass of the measure takes it from the measure's log-normaliser (which carries the rank shift)", floor=2)
+    for reg in cat.registrations:
+        g_ = reg.target
+        if g_ is None or not reg.pattern or isinstance(g_.node, ast.Lambda) or refs.resolve(reg.pattern[0]) != "funsor.integrate.Integrate" or len(g_.positional) != 3:
+            continue
+        if not (isinstance(reg.pattern[1], (ast.Name, ast.Attribute)) and (refs.resolve(reg.pattern[1]) or "").endswith("gaussian.Gaussian")):
+            continue
+        pm = g_.positional[0]
+        defs_ = {}
+        for st in ast.walk(g_.node):
+            if isinstance(st, ast.Assign) and len(st.targets) == 1 and isinstance(st.targets[0], ast.Name):
+                defs_.setdefault(st.targets[0].id, []).append(st.value)
+
+        # the measure, and locals that re-wrap its aligned factors as a Gaussian
+        aliases = {pm} | {n_ for n_, ds_ in defs_.items() if any(isinstance(d_, ast.Call) and (refs.resolve(d_.func) or "").endswith("gaussian.Gaussian") for d_ in ds_)}
+
+        def reads(e, seen=()):
+            """attributes of the measure that the value of e is computed from (through local definitions)"""
+            out = set()
+            for y in ast.walk(e):
+                if isinstance(y, ast.Attribute) and isinstance(y.value, ast.Name) and y.value.id in aliases:
+                    out.add(y.attr)
+                if isinstance(y, ast.Name) and y.id in defs_ and y.id not in seen:
+                    for d in defs_[y.id]:
+                        out |= reads(d, seen + (y.id,))
+            return out
+        for c in ast.walk(g_.node):
+            if isinstance(c, ast.Call) and norm(c.func).rsplit(".", 1)[-1] == "exp" and len(c.args) == 1:
+                rd = reads(c.args[0])
+                if not rd:
+                    continue
+                construct = f"{g_.fq}::{norm(c)[:50]}"
+                if rd & {"_log_normalizer", "log_normalizer"}:
+                    col.ok(construct, "the mass is exp(<measure>._log_normalizer)", g_.loc(c))
+                elif rd & {"_precision_chol", "prec_sqrt", "_precision", "_covariance"}:
+                    col.violation(construct, f"the mass is recomputed from {sorted(rd)} instead of the measure's `_log_normalizer`: for a wide factor (rank > dim, e.g. g1 + g2) the "
+                                  "normaliser includes the shift 1/2 (|w_c|^2 - |w|^2) of the compression, which a determinant alone does not have, so the integral is off by exp(-shift)", g_.loc(c))
+                else:
+                    col.unresolved(construct, f"exp of a value computed from {sorted(rd)}", g_.loc(c))
     # ---------------------------------------------------------------- R13.11 an unwrapped negation is compensated
     col.rule("R13.11", "an Integrate rule that strips the negation of a term (`t.arg` of a Unary[NegOp, Gaussian]) negates the integral of that term", floor=2)
     for reg in cat.registrations:
